@@ -39,6 +39,9 @@ CompOK(e) == e.cu_re <= CompGuard /\ e.cu_im <= CompGuard
 UnitsOK(e) == IsF(e) => (e.units <= UnitsGuard /\ (e.op \notin {"neg", "conj", "abs_sqr"} => CompOK(e)))
 HasOperands(e) == ~IsF(e) \/ e.exact
 
+SoakN == 1048576 + 64
+SoakOps == {"add", "sub", "mul", "div", "neg", "conj", "abs_sqr", "add_r", "sub_r", "mul_r", "div_r", "r_mul"} \cup AsgKinds
+           \cup {"eq", "ne", "lt", "le", "gt", "ge", "partial_cmp", "zero", "one"}
 BinOps == {"add", "sub", "mul", "div"}
 RealOps == {"add_r", "sub_r", "mul_r", "div_r", "r_mul"}
 BinVal(op, z, w) == CASE op = "add" -> CAdd(z, w) [] op = "sub" -> CSub(z, w)
@@ -87,6 +90,10 @@ Explained(e) ==
          \* stated directly as well: exactly one of <, =, > and transitivity on this triple
          /\ (IF e.lt THEN 1 ELSE 0) + (IF e.eq THEN 1 ELSE 0) + (IF e.gt THEN 1 ELSE 0) = 1
          /\ (e.c_zw = "lt" /\ e.c_wv = "lt") => e.c_zv = "lt"
+    \* call-count dependence: SoakN consecutive guarded calls on fixed inexact operands, every result bit-identical to
+    \* the first call's on the same operands, no panic (summary event per operation; soak_end lists what was soaked)
+    [] e.op = "soak" -> e.name \in SoakOps /\ e.n >= SoakN /\ e.panics = 0 /\ e.diffs = 0
+    [] e.op = "soak_end" -> {e.names[i] : i \in 1..Len(e.names)} = SoakOps
     [] OTHER -> FALSE
 
 Init == l = 1 /\ TLCSet(1, 0)
